@@ -46,6 +46,7 @@ func init() {
 	stExtraGens["06"] = func(c *Ctx) {
 		lin06Gen(c)
 		node06Gen(c)
+		rpc06Gen(c)
 		r := c.Rng
 		n := 1500
 		if c.Tier == "thorough" {
